@@ -185,8 +185,11 @@ impl Scheduler {
         #[cfg(folo_verif)]
         crate::verif::point("sp.notify", u64::from(processor_id));
 
-        // Notify one worker that work is available.
-        state.wake_event.notify(1);
+        // Notify one more worker that work is available. This must be an *additional*
+        // notification: a plain `notify(1)` does nothing while a previously notified worker has
+        // not yet consumed its notification, which would leave a second idle worker asleep next
+        // to the task we just queued for as long as the first one is busy.
+        state.wake_event.notify_additional(1);
 
         JoinHandle::new(receiver)
     }
@@ -222,8 +225,8 @@ impl Scheduler {
         // Record the spawn for metrics.
         state.record_task_spawned();
 
-        // Notify one worker that work is available.
-        state.wake_event.notify(1);
+        // Notify one more worker that work is available (additional, see `spawn_internal()`).
+        state.wake_event.notify_additional(1);
     }
 
     /// Queues a task for the workers of a processor, unless the pool has been shut down.
